@@ -448,6 +448,7 @@ void chist_exec(const chist *h, int i, vh_obj *ob, ctrans *t, const char *prefix
     if (o->kind >= C_SET_KEY && o->kind <= C_SET_COUNTER && !(o->flags & F_NULL_PTR)) {
         a = place(0, o, 0, o->dlen); used_a = 1;
         memcpy(a, h->pool + o->doff, o->dlen);
+        vh_gprotect(0, 1);          /* key / tweak / counter bytes are inputs: their pages are read-only during the call */
     }
     if (vh_pre_call_hook) vh_pre_call_hook(ob, o->kind == C_CLEANUP && obj, i);
     switch (o->kind) {
@@ -477,7 +478,7 @@ void chist_exec(const chist *h, int i, vh_obj *ob, ctrans *t, const char *prefix
         if (!(o->flags & F_NULL_IN)) in = a;
         if (!(o->flags & F_NULL_OUT)) {
             if (o->flags & F_INPLACE) { out = a; }
-            else { b = place(2, o, 1, o->len); used_b = 1; memset(b, 0xEE, o->len); vh_make_undef(b, o->len); out = b; }
+            else { b = place(2, o, 1, o->len); used_b = 1; memset(b, 0xEE, o->len); vh_make_undef(b, o->len); out = b; if (used_a == 2) vh_gprotect(1, 1); }
         }
         vh_call_begin("ctr_encrypt"); ret = c->ctr_encrypt(out, in, o->len, obj); vh_call_end();
         if (ret && out && t->out_n + o->len <= H_OUT) {
